@@ -1,6 +1,6 @@
 (* C15 -- property theorems only; each closed by `exact`, with Print Assumptions. *)
 From Coq Require Import String List Bool Arith QArith Permutation.
-From PD Require Import Model.Online Model.Parallel Gen.Gen_glue Proofs.Online Proofs.Parallel Proofs.C14 Proofs.C15.
+From PD Require Import Model.Online Model.Parallel Gen.Gen_glue Proofs.Online Proofs.Parallel Proofs.ParallelOneShot Proofs.C14 Proofs.C15.
 Import ListNotations.
 Local Open Scope nat_scope.
 
@@ -161,6 +161,23 @@ Theorem C15_capped_workers_refuted :
   mapped none_nat P (fun x : nat => Some x) (fun x => Some x) (NPInt 2) 8 [] [] = Done [].
 Proof. exact capped_workers_refuted. Qed.
 Print Assumptions C15_capped_workers_refuted.
+
+(* the candidates may be a one-shot iterable (generator, iter(list), filter / map object): the parallel branch
+   traverses the argument exactly once (or materialises it first), so the tasks are made of ALL candidates *)
+Theorem C15_candidates_all_dispatched :
+  forall (A : Type) (xs : list A),
+    rd_serial_iterates_once = true /\ rd_parallel_iterates_once = true /\
+    seen_by_dispatch rd_parallel_uses_of_candidates false xs = Some xs.
+Proof. exact (fun A => @candidates_all_dispatched A). Qed.
+Print Assumptions C15_candidates_all_dispatched.
+
+(* what it excludes: peeking into the container before dispatching it *)
+Theorem C15_one_shot_peek_refuted :
+  (seen_by_dispatch ["other"; "dispatch"] false [1; 2; 3] = Some [2; 3] /\
+   seen_by_dispatch ["dispatch"] false [1; 2; 3] = Some [1; 2; 3] /\
+   seen_by_dispatch ["materialise"; "len"; "dispatch"] false [1; 2; 3] = Some [1; 2; 3])%string.
+Proof. exact one_shot_peek_refuted. Qed.
+Print Assumptions C15_one_shot_peek_refuted.
 
 (* what the theorems exclude: a gatherer that returns results in completion order *)
 Theorem C15_completion_order_refuted :
